@@ -206,6 +206,8 @@ Proof.
       * apply shape_ok_and. repeat constructor; auto. destruct (word_of r topfold cs); exact I.
     + destruct b; simpl; auto.
     + destruct (lang_code c name); simpl; auto.
+    + (* Symbol{Regexp} (added to Model/SearchCore.v by the C01 deepening): a scan leaf in every case *)
+      destruct (distill orbit c freq cs false r) as [[sub isEq] sl]. destruct isEq; [destruct sub|]; split; try reflexivity; exact I.
 Qed.
 
 Lemma search_limited_unfold : forall lim ca q, search_limited re_match tolower orbit c freq weight lim ca q =
